@@ -28,9 +28,6 @@ Proof.
   destruct (cmp_op pubsub_opener_skip_op a b), (cmp_op pubsub_opener_skip_op b a); reflexivity.
 Qed.
 
-Lemma opens_str_same a : opens_str a a = opens_str a a.
-Proof. reflexivity. Qed.
-
 Section Opener.
   (* peer.ID.String(): base58 text of the peer id bytes *)
   Variable b58 : bytes -> bytes.
